@@ -304,7 +304,10 @@ def cpp_part(run, bi, root):
             run.violation("generated C++ static bytes differ from the id-ordered reference", case)
             return
         if op == "DE" and oa != "OK " + canon.hex():
-            if not all_leaves_whole_bytes(sch0, ("struct", name)) and oa == "OK " + ref.encode_leaf_aligned(sch0, name, v).hex():
+            narrow = PP.narrow_id_schema(sch0, name)
+            if narrow is not None and oa == "OK " + ref.encode(narrow, name, v).hex():
+                run.known_finding(PP.K_NARROW, "reflection-loaded encoder orders a field id outside 0..2^32-1 mod 2^32 (twins agree)", {"struct": name})
+            elif not all_leaves_whole_bytes(sch0, ("struct", name)) and oa == "OK " + ref.encode_leaf_aligned(sch0, name, v).hex():
                 run.known_finding(K1, "reflection-loaded encoder: unpacked bytes (twins agree)", {"struct": name})
             else:
                 run.violation("reflection-loaded C++ bytes differ from the id-ordered reference", case)
